@@ -1295,7 +1295,15 @@ def manager_keys_not_derived(ctx, rule, floor=10):
             if not c.args:
                 continue
             lv = tr.origins(b, c.args[0])
-            if any(l.kind == "field" and any((f_[0] or "").endswith("manager::RequestManager") for f_ in l.detail["fields"]) for l in lv):
+            hit = any(l.kind == "field" and any((f_[0] or "").endswith("manager::RequestManager") for f_ in l.detail["fields"]) for l in lv)
+            q0 = op_place(c.args[0])
+            if not hit and q0 is not None:
+                # `&mut (*guard).requests`: the reference is taken of a field of the manager
+                for l0 in flow._local_copies_back(b, q0["l"], 4):
+                    for bi_, si_, dpl_, src_ in b.defs.get(l0, []):
+                        if src_[0] == "rv" and src_[1]["k"] == "ref" and any(isinstance(e, dict) and (e.get("o") or "").endswith("manager::RequestManager") for e in src_[1]["pl"].get("p", [])):
+                            hit = True
+            if hit:
                 R.bad(rule, "%s:no-table-scan" % fkey(b), "%s (through a manager method that was expanded into it) selects an entry by scanning one of the request manager's tables (%s) instead of by the id of the message at hand: an answer that carries no usable id is attributed to whichever entry the scan picks" % (short(b.path), short(c.name())), where(c))
     R.floor(rule, n, floor, "keyed table operations in RequestManager")
 
